@@ -403,7 +403,7 @@ fn check_large(c: &LargeCase, ctx: &Ctx) -> Outcome {
             save_table::<u128>(&t, c.k, c.rc, &path, false)?;
         }
         let size = std::fs::metadata(&path).map(|m| m.len()).unwrap_or(0);
-        let (width, t2, disp, _dbg, k2, rc2) = dispatch_load(&cli::p(&path))?;
+        let (width, t2, disp, dbg, k2, rc2) = dispatch_load(&cli::p(&path))?;
         if width != k_bits_for(c.k) {
             return Err(format!("file written with {}-bit k-mers read back as {width}-bit", k_bits_for(c.k)));
         }
@@ -416,6 +416,9 @@ fn check_large(c: &LargeCase, ctx: &Ctx) -> Outcome {
         if !disp.contains(&format!("k-mers={}", t.rows.len())) {
             return Err("nk summary reports a wrong number of k-mers".into());
         }
+        // what `ska nk --full-info` prints for the reloaded file (its Debug form) must list every row
+        let listing = model::parse_nk(&format!("{disp}\n{dbg}")).map_err(|e| format!("full listing of the reloaded file: {e}"))?;
+        model::compare_nk(&listing, &t, c.k, c.rc, Some(k_bits_for(c.k))).map_err(|e| format!("full listing (nk --full-info text) of the reloaded file: {e}"))?;
         Ok(size)
     })();
     let r = std::panic::catch_unwind(std::panic::AssertUnwindSafe(|| r)).unwrap_or_else(|e| Err(panic_msg(&e)));
@@ -443,7 +446,7 @@ fn stages(tier: Tier) -> Vec<Box<dyn Stage>> {
     vec![
         gen_stage_show("inproc", RULE, tier.pick(8000, 100_000), 400, case_strategy, check_inproc, show),
         gen_stage_show("cli", RULE, tier.pick(800, 10_000), 150, case_strategy, check_cli, show),
-        gen_stage_show("large", "generated: tables of 1500-9000 random k-mers (content a pure function of the case's content_seed), 1-6 samples, every valid k, half of the k>=35 tables restricted to 64-bit-fitting k-mers; written through the public API, reloaded by the 64-then-128 dispatch: width, k, strand, names and every row identical. Non-trivial: file larger than one snappy frame (64 KiB) or a 64-bit-fitting k>=35 table.", tier.pick(96, 1600), 20, large_strategy, check_large, |c| json!({"k": c.k, "samples": c.n, "rows": c.rows, "fits64": c.fits64})),
+        gen_stage_show("large", "generated: tables of 1500-9000 random k-mers (content a pure function of the case's content_seed), 1-6 samples, every valid k, half of the k>=35 tables restricted to 64-bit-fitting k-mers; written through the public API, reloaded by the 64-then-128 dispatch: width, k, strand, names and every row identical (harness decoder), and the full listing that nk --full-info prints == the table. Non-trivial: file larger than one snappy frame (64 KiB) or a 64-bit-fitting k>=35 table.", tier.pick(96, 1600), 20, large_strategy, check_large, |c| json!({"k": c.k, "samples": c.n, "rows": c.rows, "fits64": c.fits64})),
     ]
 }
 
